@@ -160,20 +160,32 @@ func checkLexerSwitch(p *Program, r *Result, g *goLayouts) {
 				if !ok || len(as.Lhs) != 2 || len(as.Rhs) != 1 {
 					continue
 				}
-				ix, ok := as.Rhs[0].(*ast.IndexExpr)
-				if !ok || !isOpcodeExpr(ix.Index) {
-					continue
-				}
 				okId, _ := as.Lhs[1].(*ast.Ident)
 				cid, _ := x.Cond.(*ast.Ident)
 				if okId == nil || cid == nil || okId.Name != cid.Name {
 					continue
 				}
-				tid, _ := ix.X.(*ast.Ident)
-				if tid == nil {
-					continue
+				var lit *ast.CompositeLit
+				switch rhs := as.Rhs[0].(type) {
+				case *ast.IndexExpr:
+					if tid, _ := rhs.X.(*ast.Ident); tid != nil && isOpcodeExpr(rhs.Index) {
+						lit = packageMapLiteral(g, tid)
+					}
+				case *ast.CallExpr:
+					// tok, ok := lookup(opcode): a helper that consults a package-level table
+					if len(rhs.Args) == 1 && isOpcodeExpr(rhs.Args[0]) {
+						if fn := g.calleeOf(rhs); fn != nil {
+							if hd := g.decls[fn]; hd != nil && hd.Body != nil {
+								ast.Inspect(hd.Body, func(m ast.Node) bool {
+									if id, ok := m.(*ast.Ident); ok && lit == nil {
+										lit = packageMapLiteral(g, id)
+									}
+									return true
+								})
+							}
+						}
+					}
 				}
-				lit := packageMapLiteral(g, tid)
 				if lit == nil {
 					continue
 				}
@@ -186,6 +198,21 @@ func checkLexerSwitch(p *Program, r *Result, g *goLayouts) {
 					a := hit
 					a.cc = &ast.CaseClause{Case: kv.Pos()}
 					name := types.ExprString(kv.Key)
+					if cl, ok := kv.Value.(*ast.CompositeLit); ok {
+						off := false
+						for _, el2 := range cl.Elts {
+							v := el2
+							if kv2, ok := el2.(*ast.KeyValueExpr); ok {
+								v = kv2.Value
+							}
+							if id, ok := v.(*ast.Ident); ok && id.Name == "false" {
+								off = true
+							}
+						}
+						if off {
+							continue
+						}
+					}
 					if prev, had := arms[name]; !had || (a.returns && !prev.returns) {
 						arms[name] = a
 					}
